@@ -275,7 +275,9 @@ class PrettyContext:
         self.sort_dict_keys = sort_dict_keys
 
         if visited is None:
-            visited = set()
+            visited = {}
+        # id -> value. Holding on to the values keeps their ids from being
+        # reused for as long as a copy of this mapping is kept around.
         self.visited = visited
 
         self.user_ctx = user_ctx or {}
@@ -323,10 +325,10 @@ class PrettyContext:
         return self._replace(depth_left=self.depth_left - 1)
 
     def start_visit(self, value):
-        self.visited.add(id(value))
+        self.visited[id(value)] = value
 
     def end_visit(self, value):
-        self.visited.remove(id(value))
+        del self.visited[id(value)]
 
     def is_visited(self, value):
         return id(value) in self.visited
@@ -1466,13 +1468,13 @@ def pretty_dict(d, ctx, trailing_comment=None):
             # The value is rendered a second time for the broken variant.
             # Doing that eagerly doubles the work at every nesting level,
             # so it's deferred until the layout actually takes that branch.
-            # The visited set is copied: by then the original one has
+            # The visited mapping is copied: by then the original one has
             # moved on, and cycle detection needs the path as it is now.
             rerender_ctx = (
                 ctx
                 .nested_call()
                 .use_multiline_strategy(MULTILINE_STRATEGY_PLAIN)
-                ._replace(visited=set(ctx.visited))
+                ._replace(visited=dict(ctx.visited))
             )
 
             def rerender_value(indent, column, page_width, ribbon_width,
@@ -2022,7 +2024,7 @@ def python_to_sdocs(
         ctx=PrettyContext(
             indent=indent,
             depth_left=depth,
-            visited=set(),
+            visited={},
             max_seq_len=max_seq_len,
             sort_dict_keys=sort_dict_keys
         )
